@@ -1010,6 +1010,10 @@ class Connection(ExportImport):
         state = (self._storage.position,
                  self._storage.index.copy(),
                  self._storage.creating.copy(),
+                 # objects the transaction depends on being current: a
+                 # later savepoint pops the ones it writes; rolling that
+                 # write back must bring the dependency back.
+                 self._readCurrent.copy(),
                  )
         result = Savepoint(self, state)
         # While the interface doesn't guarantee this, savepoints are
@@ -1028,8 +1032,10 @@ class Connection(ExportImport):
         self._invalidate_creating(oid for oid in src.creating
                                   if oid not in state[2])
         index = src.index
-        src.reset(*state)
+        src.reset(*state[:3])
         self._cache.invalidate(index)
+        for oid, serial in state[3].items():
+            self._readCurrent.setdefault(oid, serial)
 
     def _commit_savepoint(self, transaction):
         """Commit all changes made in savepoints and begin 2-phase commit
